@@ -341,7 +341,7 @@ pub(super) fn derive_schema(input: TokenStream) -> syn::Result<TokenStream> {
 
         } else {
             let mut variant_schemas = Vec::with_capacity(variants.len());
-            for mut v in variants {
+            for v in variants {
                 let variant_attrs = VariantAttributes::new(&v.attrs)?;
 
                 if variant_attrs.serde.skip
@@ -363,21 +363,14 @@ pub(super) fn derive_schema(input: TokenStream) -> syn::Result<TokenStream> {
                     LitStr::new(&ident.to_string(), ident.span())
                 };
 
-                /* preprocess `#[serde(rename_all_fields)]` of enum */
-                if let (
-                    Fields::Named(FieldsNamed { brace_token:_, named }),
-                    Some((span, case))
-                ) = (
-                    &mut v.fields,
-                    container_attrs.serde.rename_all_fields.value()?
-                ) {
-                    for f in named {
-                        f.ident = Some(Ident::new(
-                            &case.apply_to_field(&f.ident.as_ref().unwrap(/* Named */).to_string()),
-                            span
-                        ));
-                    }
-                }
+                /* The enum's `rename_all` renames the variants, not their fields:
+                   those follow the variant's own `rename_all`, or else the enum's `rename_all_fields` */
+                let mut fields_attrs = ContainerAttributes::default();
+                fields_attrs.serde.rename_all = if variant_attrs.serde.rename_all.value()?.is_some() {
+                    variant_attrs.serde.rename_all.clone()
+                } else {
+                    container_attrs.serde.rename_all_fields.clone()
+                };
 
                 let mut schema = if let Some(schema_with) = &variant_attrs.openapi.schema_with {
                     let schema_with = syn::parse_str::<Path>(schema_with)?;
@@ -385,7 +378,7 @@ pub(super) fn derive_schema(input: TokenStream) -> syn::Result<TokenStream> {
                         #schema_with()
                     }
                 } else {
-                    schema_of_fields(v.fields, &container_attrs)?
+                    schema_of_fields(v.fields, &fields_attrs)?
                 };
 
                 schema = match (
